@@ -113,6 +113,29 @@ def seeded_runs(pid: str, repo: str, jobs: int = 8):
     return out
 
 
+def _anchor_files(pid: str):
+    """files the property is anchored in (None = whole package)"""
+    import json
+    if pid == "C19":
+        return None
+    try:
+        for ln in open(os.path.join(VERIF, "properties.jsonl")):
+            d = json.loads(ln)
+            if d["id"] == pid:
+                fs = set(d.get("anchors", {}).get("files", []))
+                # anchors name the main files; helpers live next to them
+                extra = set()
+                for f in fs:
+                    if f.startswith("persim/landscapes/"):
+                        extra |= {"persim/landscapes/auxiliary.py", "persim/landscapes/base.py"}
+                    if f == "persim/images.py":
+                        extra |= {"persim/images_kernels.py", "persim/images_weights.py"}
+                return fs | extra
+    except OSError:
+        pass
+    return None
+
+
 def refactor_runs(pid: str, repo: str):
     """behaviour-preserving refactorings written independently (kept under /verif/refactors/<R>/patch.diff, each verified
     against the test suite and a differential harness when it was collected): the check must not report a violation on
@@ -123,9 +146,21 @@ def refactor_runs(pid: str, repo: str):
     if not os.path.isdir(root):
         return out
     names = [n for n in sorted(os.listdir(root)) if os.path.exists(os.path.join(root, n, "patch.diff"))]
+    # small single-purpose maintenance patches (refactors/small/<S>/pK.diff): applied one at a time, and only to the checks
+    # whose property is anchored in a file the patch touches (C19 looks at the whole package)
+    small_root = os.path.join(root, "small")
+    anchored = _anchor_files(pid)
+    if os.path.isdir(small_root):
+        for sname in sorted(os.listdir(small_root)):
+            for f in sorted(os.listdir(os.path.join(small_root, sname))):
+                if f.startswith("p") and f.endswith(".diff"):
+                    pth = os.path.join(small_root, sname, f)
+                    touched = {ln[6:].strip() for ln in open(pth) if ln.startswith("+++ b/")}
+                    if anchored is None or touched & anchored:
+                        names.append(os.path.join("small", sname, f))
 
     def one(name):
-        pp = os.path.join(root, name, "patch.diff")
+        pp = os.path.join(root, name, "patch.diff") if not name.endswith(".diff") else os.path.join(root, name)
         d = tempfile.mkdtemp(prefix="pstref.")
         try:
             shutil.copytree(os.path.join(repo, "persim"), os.path.join(d, "persim"), ignore=shutil.ignore_patterns("__pycache__"))
